@@ -185,7 +185,20 @@ impl SetSketchParams {
         //
         let loadfile = fileres.unwrap();
         let reader = BufReader::new(loadfile);
-        let hll_parameters: Self = serde_json::from_reader(reader).unwrap();
+        let hll_parameters: Self = match serde_json::from_reader(reader) {
+            Ok(params) => params,
+            Err(e) => {
+                log::error!(
+                    "SetSketchParams reload_json : invalid parameter file {:?} : {}",
+                    filepath.as_os_str(),
+                    e
+                );
+                return Err(format!(
+                    "SetSketchParams reload_json : invalid parameter file : {}",
+                    e
+                ));
+            }
+        };
         //
         Ok(hll_parameters)
     } // end of reload_json
